@@ -23,7 +23,7 @@ const MODS: &[&str] = &["", "_", "@", "$", "!"];
 /// Operator contexts around a hole `{}`; the flag says whether the context is extras-only.
 fn contexts() -> Vec<String> {
     let mut v: Vec<String> = vec![
-        "{}", "({})?", "({})*", "({})+", "({}){2}", "({}){1,}", "({}){,2}", "({}){1,2}", "({}){2,}", "({}){2,3}", "&({})", "!({})", "({})", "{} ~ \"a\"", "\"\" ~ {}", "\"a\"? ~ {}", "\"a\"* ~ {}", "\"a\" ~ {}",
+        "{}", "({})?", "({})*", "({})+", "({}){2}", "({}){1,}", "({}){,2}", "({}){1,2}", "({}){2,}", "({}){2,3}", "({}){1,1}", "({}){2,2}", "({}){0,2}", "({}){1}", "&({})", "!({})", "({})", "{} ~ \"a\"", "\"\" ~ {}", "\"a\"? ~ {}", "\"a\"* ~ {}", "\"a\" ~ {}",
         "!\"a\" ~ {}", "&\"a\" ~ {}", "SOI ~ {}", "'a'..'b' ~ {}", "ANY{,2} ~ {}", "{} | \"a\"", "\"a\" | {}",
     ]
     .into_iter()
@@ -134,10 +134,15 @@ pub fn corpus(quick: bool) -> Vec<Gen> {
     let small: Vec<String> = by.iter().flatten().cloned().collect();
     for special in ["WHITESPACE", "COMMENT"] {
         for m in MODS {
-            if *m == "!" {
-                continue;
+            let mut two: Vec<String> = vec![];
+            for x in ["\"a\"?", "\"a\"", "s", "!\"a\""] {
+                for y in ["\"b\"", "\"a\"*", "ANY"] {
+                    two.push(format!("{x} ~ {y}"));
+                    two.push(format!("{x} | {y}"));
+                    two.push(format!("({x} ~ {y})+"));
+                }
             }
-            for b in &small {
+            for b in small.iter().chain(two.iter()) {
                 out.push(Gen { text: format!("{special} = {m}{{ {b} }} s = {{ \"b\" }} r = {{ \"a\" ~ \"b\" ~ (\"a\")* }}"), class: "special-body" });
             }
         }
